@@ -21,7 +21,7 @@ from collections import Counter
 import numpy as np
 import pandas as pd
 
-from ._stateful_util import Reporter, WorkResult, chunked, code, merge, pmap
+from ._stateful_util import Reporter, WorkResult, chunked, code, guard, merge, pmap
 
 
 import types
@@ -124,10 +124,17 @@ def make_train(rng, n, storage_variant=0):
         rng.shuffle(v)
         return v
 
+    def shuffled(v):
+        rng.shuffle(v)
+        return v
+
     a_dtype, g_dtype = [("object", "category"), ("category", "object"), ("object", "category")][storage_variant % 3]
     return {
-        "x": ([rng.uniform(-3, 3) for _ in range(n)], "float64"),
-        "w": ([rng.gauss(0, 1) for _ in range(n)], "float64"),
+        # at least six x in [-1, 1], one below -1.6 and one above 1.6, five w in [-0.4, 0.4]: every template with explicit
+        # knots or bounds has the data it needs
+        "x": (shuffled([rng.uniform(-1, 1) for _ in range(6)] + [rng.uniform(-3, -1.6), rng.uniform(1.6, 3)]
+                       + [rng.uniform(-3, 3) for _ in range(n - 8)]), "float64"),
+        "w": (shuffled([rng.uniform(-0.4, 0.4) for _ in range(5)] + [rng.gauss(0, 1) for _ in range(n - 5)]), "float64"),
         "z": ([10 ** rng.uniform(-2, 2) for _ in range(n)], "float64"),
         "a": (lv(["p", "q", "r"]), a_dtype),
         "g": (lv(["u", "v"]), g_dtype),
@@ -335,7 +342,19 @@ def _worker(jobs):
             warnings.simplefilter("ignore")
             try:
                 mm = model_matrix(formula, train, output=output, context=CTX)
-            except Exception as e:  # noqa: BLE001 - no spec, nothing to replay: outside the property
+            except Exception as e:  # noqa: BLE001
+                if fam != "sum":
+                    # every fixed template fits on the training frames of this driver: a failure to build the original
+                    # matrix is a failure of the original/replay clause for that template, not a crash and not a skip
+                    res.case(("fit", formula, output, seed), True)
+                    res.fail("C04.replay.original", f"fit-raises-{type(e).__name__}:{fam}",
+                             {"formula": formula, "output": output, "cols": cols,
+                              "code": code(WITNESS.format(cols=cols, formula=formula, output=output, pickled=False,
+                                                          history=[("original", list(range(len(cols["x"][0]))), False, False)],
+                                                          via="spec.get_model_matrix", clause="C04.replay.original"))},
+                             f"building the matrix for {formula!r} raised {type(e).__name__}: {e}"[:800])
+                    continue
+                # random sums may be legitimately refused (duplicate term with another scaling, knots outside the data)
                 res.case(("train-failed", formula, output), nontrivial=False)
                 res.stats[("train-failed", f"{formula} [{type(e).__name__}]")] += 1
                 continue
@@ -541,7 +560,7 @@ def run_bounded(ctx):
         rep = Reporter(ctx, b)
         jobs = _jobs(rng, ctx.thorough)
         stats = Counter()
-        merge(b, rep, pmap(_worker, chunked(jobs, 64)), stats)
+        merge(b, rep, pmap(guard("vf.bounded.c04", "_worker", "C04.replay.rows"), chunked(jobs, 64)), stats)
         failed = sorted(k[1] for k in stats if k[0] == "train-failed")
         if failed:
             ctx.notes.append(f"bounded:spec-replay: formulas whose training materialization failed (not judged): {failed[:20]}"
